@@ -30,8 +30,8 @@ LEVEL_TEXT = ("Proof (P): for every key width, nullability vector, integer encod
               "right input, to terminate with exactly the row SEQUENCE of the staged formulation (merge_join_sm_refines); hence it is a permutation of the "
               "nested-loop join for inner joins (merge_join_sm_inner_spec) and for left joins with at most one NULL left key "
               "(merge_join_sm_left_spec_partial); the unrestricted left-join statement is refuted on the state machine itself "
-              "(merge_join_sm_left_refuted, reproduced on dolt). The lookup join equals the nested-loop join (lookup_join_spec); the COUNT fast path equals "
-              "the declarative count on keyed tables (count_fast_path_spec; refuted for keyless tables). Whole queries (planning, expression evaluation, "
+              "(merge_join_sm_left_refuted, reproduced on dolt). The lookup join equals the nested-loop join (lookup_join_spec); COUNT equals the declarative count "
+              "on keyed tables through the fast path and on keyless tables, which the fast path declines, through the row executor (count_answer_spec). Whole queries (planning, expression evaluation, "
               "DISTINCT, GROUP BY, LIMIT, subqueries, ORDER BY, AS OF tag/branch/HEAD~n) are covered differentially: every generated SELECT must return the "
               "rows of the reference engine and the rows computed declaratively in Coq from the data; merge-join output is compared with the state machine "
               "in dolt's row ORDER.")
@@ -39,13 +39,13 @@ LEVEL_NOTE = ("Partial: the theorems cover the key-value executors and range con
               "other column types and collations rest on the differential part. Trusted: Coq kernel, Go harness (it also runs the reference engine and "
               "reports agreement as a boolean, and reads the join sides' indexes off EXPLAIN), Python glue. sort.Search is modelled as 'first index where "
               "the predicate holds', justified by the monotonicity theorems; fillMatchBuf is one step of the state machine. Open findings "
-              "(known_findings.json): LEFT merge join loses right rows after a group of NULL left keys; COUNT(col) on a keyless table tests the wrong tuple "
-              "field; NOT IN (subquery) planned as LeftOuterMergeJoin + IS NULL filter ignores NULL semantics (shared go-mysql-server analyzer: both engines "
-              "agree, the declarative answer disagrees). No oracle_on_model theorem for the query part: the model reproduces the first two defects.")
+              "(known_findings.json): LEFT merge join loses right rows after a group of NULL left keys; NOT IN "
+              " (subquery) planned as LeftOuterMergeJoin + IS NULL filter ignores NULL semantics (shared go-mysql-server analyzer: both engines "
+              "agree, the declarative answer disagrees). No oracle_on_model theorem for the query part: the model reproduces the first defect. Repaired: COUNT(col) on keyless tables (d707d55), kept as a regression case.")
 THEOREMS = ["ranges_sound_complete", "above_start_monotone", "below_stop_antitone", "range_oracle_on_model", "merge_join_sm_refines",
             "merge_join_sm_inner_spec", "merge_join_sm_left_spec_partial", "merge_join_spec", "merge_join_inner_spec",
-            "merge_join_left_spec_partial", "lookup_join_spec", "count_fast_path_spec"]
-REFUTED = ["merge_join_sm_left_refuted", "merge_join_left_refuted", "count_fast_path_keyless_refuted"]
+            "merge_join_left_spec_partial", "lookup_join_spec", "count_fast_path_spec", "count_answer_spec"]
+REFUTED = ["merge_join_sm_left_refuted", "merge_join_left_refuted"]
 RULE = ("tables t(id pk, a, b, c; indexes (a), (a,b)), u((x,y) pk, z; index (z)), keyless k(a,b; index (a)), w(p int, q bigint, s smallint, v; pk (p,q,s); "
         "index (v,q)) with 0-40 rows (joins: <= 12) of small "
         "integers, int32 extremes and NULLs, duplicates in indexed columns; optional commit followed by deletes/updates/inserts; explicit ranges over "
@@ -462,11 +462,13 @@ def fixed_cases():
     qs = [j("t", "u", 1, 0, M, False), j("t", "u", 1, 0, M, True), j("t", "u", 1, 0, L, False), j("t", "u", 1, 0, L, True),
           j("t", "u", 2, 2, M, True), j("t", "u", 2, 2, L, True), j("u", "t", 2, 1, M, True), j("t", "t", 1, 2, M, False, True),
           j("t", "u", 1, 0, L, True, True)]
-    # witnesses of the two refuted statements (merge_join_left_refuted, count_fast_path_keyless_refuted), replayed on every run
-    wt = {"t": [[1, None, 0, 0], [2, 0, 0, 0]], "u": [[1, 1, None], [1, 2, None], [1, 3, 0]], "k": [[None, 1]]}
+    # witness of merge_join_left_refuted and the regression case of the repaired keyless COUNT (d707d55; duplicates in k so that
+    # one-count-per-stored-entry would show as well), replayed on every run
+    wt = {"t": [[1, None, 0, 0], [2, 0, 0, 0]], "u": [[1, 1, None], [1, 2, None], [1, 3, 0]], "k": [[None, 1], [None, 1], [0, 0], [0, 0], [1, None]]}
     wq = [j("u", "t", 2, 1, M, True), j("u", "t", 2, 1, L, True), j("u", "t", 2, 1, M, False),
           {"kind": "count", "tbl": "k", "col": 0, "snap": False, "ord": False, "q": "select count(a) from k", "rq": "select count(a) from k", "rdb": "cur"},
           {"kind": "count", "tbl": "k", "col": None, "snap": False, "ord": False, "q": "select count(*) from k", "rq": "select count(*) from k", "rdb": "cur"},
+          {"kind": "count", "tbl": "k", "col": 1, "snap": False, "ord": False, "q": "select count(b) from k", "rq": "select count(b) from k", "rdb": "cur"},
           # NOT IN (subquery): NULL on the left (t.a of row 1) and NULL inside the subquery (u.z)
           {"kind": "sel", "tbl": "t", "p": ["not", ["insub", 1, "u", 0]], "snap": False, "ref": "", "ord": True, "proj": None, "distinct": False, "limit": None,
            "q": "select * from t where a not in (select x from u) order by id", "rq": "select * from t where a not in (select x from u) order by id", "rdb": "cur"},
@@ -847,7 +849,6 @@ def failing_queries(case, o):
     return bad
 
 
-KEY_COUNT = "kvexec:count-col-keyless-wrong-field"
 KEY_MERGE = "kvexec:left-merge-join-refills-lookahead-after-null-keys"
 KEY_NOTIN = "gms:not-in-subquery-ignores-nulls"
 
@@ -855,8 +856,6 @@ KEY_NOTIN = "gms:not-in-subquery-ignores-nulls"
 def category(case, q, qo):
     if q["kind"] == "sel" and '"not", ["insub"' in json.dumps(q["p"]) and not qo["err"] and qo["ref_eq"]:
         return KEY_NOTIN
-    if q["kind"] == "count" and q["tbl"] == "k" and q["col"] is not None and not qo["err"]:
-        return KEY_COUNT
     if q["kind"] == "join" and q["left"] and qo["plan"] == "merge" and not qo["err"]:
         tabs = case["tables"] if q["snap"] else case["cur"]
         if sum(1 for r in tabs[q["lt"]] if r[q["lc"]] is None) >= 2:
